@@ -439,7 +439,10 @@ def _iso_roundtrip(a, pre):
     fmt = a["fmt"]
     text = {"isoformat": x.isoformat, "str": x.__str__, "iso8601": x.to_iso8601_string, "rfc3339": x.to_rfc3339_string,
             "atom": x.to_atom_string, "w3c": x.to_w3c_string}[fmt]()
-    return {"k": "rt", "text": proj.cps(text), "parsed": _try(P().parse, text)}
+    kw = {}
+    if a.get("tz") and a["tz"]["n"] != "UTC":
+        kw["tz"] = tzobj(a["tz"])          # must be ignored: every rendering carries its offset
+    return {"k": "rt", "text": proj.cps(text), "parsed": _try(P().parse, text, **kw)}
 
 
 # ---------------------------------------------------------------- C13
@@ -510,9 +513,8 @@ def _parse_any(a, pre):
     kw = {"exact": o["exact"], "strict": o["strict"]}
     if o["tz"]["n"] != "UTC":
         kw["tz"] = tzobj(o["tz"])
-    if not o["strict"]:
-        kw["day_first"] = o["day_first"]
-        kw["year_first"] = o["year_first"]
+    kw["day_first"] = o["day_first"]
+    kw["year_first"] = o["year_first"]
     py, rs = _lowlevel()
     r = {"k": "parsed", "top": _try_any(P().parse, text, **kw), "py": _try_any(py, text)}
     r["rs"] = _try_any(rs, text) if rs else r["py"]
@@ -685,6 +687,16 @@ def _native_acc(a, pre):
         same("date", lambda v: (v.date().year, v.date().month, v.date().day))
         same("time", lambda v: (v.time().hour, v.time().minute, v.time().second, v.time().microsecond))
         same("timetz", lambda v: (v.timetz().hour, v.timetz().microsecond, v.timetz().utcoffset()))
+        if x.tzinfo is not None:
+            # fromtimestamp of this very instant in this zone: fields and offset as the standard library gives them
+            try:
+                ts = t.timestamp()
+                a_ = type(x).fromtimestamp(ts, tz=x.tzinfo)
+                b_ = _dt.datetime.fromtimestamp(ts, tz=t.tzinfo)
+                if (tuple(a_.timetuple())[:6], a_.microsecond, a_.utcoffset()) != (tuple(b_.timetuple())[:6], b_.microsecond, b_.utcoffset()):
+                    neq.append("fromtimestamp")
+            except Exception as e:  # noqa: BLE001
+                neq.append("fromtimestamp:" + type(e).__name__)
         d_, t_ = x.date(), x.time()
         res["date"] = [type(d_).__name__, [d_.year, d_.month, d_.day]]
         res["time"] = [type(t_).__name__, [t_.hour, t_.minute, t_.second, t_.microsecond]]
@@ -756,6 +768,12 @@ def _native_cmp(a, pre):
         res["nsub"] = proj.td3(tx - ty)
     except Exception:  # noqa: BLE001
         res["nsub"] = [0, 0, -2]
+    # mixed: pendulum - native and native - pendulum (the native operand goes through instance())
+    for key, f in (("psubn", lambda: x - ty), ("nsubp", lambda: tx - y)):
+        try:
+            res[key] = proj.td3(f())
+        except Exception:  # noqa: BLE001
+            res[key] = [0, 0, -3]
     return res
 
 
